@@ -1,4 +1,5 @@
 import NA.Proofs.C15Guard
+import NA.Proofs.C15Dec
 /-!
 # C15 — IOS changes always run under a reload guard and survive its banners
 
@@ -322,6 +323,127 @@ theorem cancel_gap_counterexample :
   ⟨gapDevice, [], { dev := 0 }, (by intro c hc; cases hc), rfl,
    ⟨.timeout promptName, by decide +kernel⟩, by decide +kernel, by decide +kernel⟩
 
+/-! ## banners: the change loop against the scripted device
+
+`gs : List Chg` is a change script of any length (single commands and joined two-command lines)
+together with what the device does on each line: the output it prints and, optionally, a reload
+banner in one of the four forms (`Form.before pad`, `.inside off`, `.afterPrompt pad`, `.after`) with
+any message.  `st` is any client state between two commands (`Ready`: nothing pending, reload
+active).  `Chg.Clean`: command lines contain no line feed/BEL/`#`/device name and do not end in a
+blank; outputs are whole lines, no line starting with the device name; banner messages are
+non-empty lines.  `Chg.NoProbeFirst` is the exact complement of finding F-C15b. -/
+
+/-- **banner_invariant** (`_partial`: every script, every command index, every form, every offset —
+except a probing placement in the FIRST half of a joined line).  Running the script with banners
+and running it without them give the same result (ok / the same command rejected with the same
+non-blank output lines), the same warnings, and the same transcript once the re-arm exchanges
+are removed; no other kind of abort (time-out, echo mismatch, missing prompt) can occur. -/
+theorem banner_invariant_partial (gs : List Chg) (st : St SimSt) (q : List Behav) (hr : Ready st)
+    (hq : st.dev.queue = gs.flatMap Chg.behavs ++ q) (hc : ∀ g ∈ gs, g.Clean ∧ g.NoProbeFirst) :
+    let o := changeLoop (simDevice []) true (gs.map Chg.cmd) st
+    let o0 := changeLoop (simDevice []) true ((gs.map Chg.plain).map Chg.cmd)
+      { st with dev := { st.dev with queue := (gs.map Chg.plain).flatMap Chg.behavs ++ q } }
+    (∃ T, o.2.trace = st.trace ++ T ∧ o0.2.trace = st.trace ++ T.filter notRearm) ∧
+    o.2.warns = o0.2.warns ∧
+    (o.1 = .ok () ↔ o0.1 = .ok ()) ∧
+    (o.1 = .ok () → Ready o.2 ∧ o.2.dev.queue = q) ∧
+    (o.1 ≠ .ok () → ∃ ci R R0, o.1 = .abort (.unexpectedOutput ci R) ∧
+        o0.1 = .abort (.unexpectedOutput ci R0) ∧ neLines R = neLines R0) := by
+  intro o o0
+  have h := loop_spec gs st q hr hq hc
+  have h0 := loop_spec (gs.map Chg.plain)
+    { st with dev := { st.dev with queue := (gs.map Chg.plain).flatMap Chg.behavs ++ q } } q
+    ⟨hr.pend, hr.active, hr.parts⟩ rfl (by
+      intro g hg
+      obtain ⟨g', hg', rfl⟩ := List.mem_map.1 hg
+      exact ⟨Chg.plain_clean g' (hc g' hg').1, Chg.plain_noProbe g'⟩)
+  rw [specOk_plain, specWarns_plain, firstBad_plain, specTrace_plain gs (fun g hg => (hc g hg).1)] at h0
+  refine ⟨⟨specTrace gs, h.1, h0.1⟩, by rw [h.2.1, h0.2.1], ?_, ?_, ?_⟩
+  · cases hs : specOk gs with
+    | true => exact ⟨fun _ => (h0.2.2.1 hs).1, fun _ => (h.2.2.1 hs).1⟩
+    | false =>
+      obtain ⟨ci, R, out, e1, _⟩ := h.2.2.2 hs
+      obtain ⟨ci0, R0, out0, e0, _⟩ := h0.2.2.2 hs
+      constructor
+      · intro hk; rw [e1] at hk; cases hk
+      · intro hk; rw [e0] at hk; cases hk
+  · intro hok
+    cases hs : specOk gs with
+    | true => exact (h.2.2.1 hs).2
+    | false =>
+      obtain ⟨ci, R, out, e1, _⟩ := h.2.2.2 hs
+      rw [e1] at hok; cases hok
+  · intro hne
+    cases hs : specOk gs with
+    | true => exact absurd (h.2.2.1 hs).1 hne
+    | false =>
+      obtain ⟨ci, R, out, e1, e2, e3⟩ := h.2.2.2 hs
+      obtain ⟨ci0, R0, out0, f1, f2, f3⟩ := h0.2.2.2 hs
+      rw [e2] at f2
+      cases f2
+      exact ⟨ci, R, R0, e1, f1, by rw [e3, f3]⟩
+
+/-- **rearm_on_one_minute** (model of the repaired code).  In a script whose outputs are all
+accepted, for every element `g` (single command or joined line, at any position): its `Send` is
+followed by exactly one `do reload in 2` / `n` / confirmation exchange if the answer to ANY of its
+lines carried a `SHUTDOWN in 0:01:00` / `00:01:00` banner (any form, any offset), by none
+otherwise, and then by the next command. -/
+theorem rearm_on_one_minute (pre post : List Chg) (g : Chg) (st : St SimSt) (q : List Behav) (hr : Ready st)
+    (hq : st.dev.queue = (pre ++ g :: post).flatMap Chg.behavs ++ q)
+    (hc : ∀ x ∈ pre ++ g :: post, x.Clean ∧ x.NoProbeFirst) (hok : specOk (pre ++ g :: post) = true) :
+    let o := changeLoop (simDevice []) true ((pre ++ g :: post).map Chg.cmd) st
+    o.1 = .ok () ∧
+    o.2.trace = st.trace ++ (pre.flatMap fun x => x.cmd :: (if x.need then rearmLines else [])) ++
+      (g.cmd :: (if g.need then [doReloadCmd, lit "n", []] else [])) ++ specTrace post ∧
+    (specTrace post).head? = post.head?.map Chg.cmd := by
+  intro o
+  have h := loop_spec (pre ++ g :: post) st q hr hq hc
+  have hpre : specOk pre = true := by
+    simp only [specOk, List.all_append, Bool.and_eq_true] at hok; exact hok.1
+  have hg : g.valid = true := by
+    simp only [specOk, List.all_append, List.all_cons, Bool.and_eq_true] at hok; exact hok.2.1
+  refine ⟨(h.2.2.1 hok).1, ?_, ?_⟩
+  · rw [h.1, specTrace_append_ok pre (g :: post) hpre]
+    simp [specTrace, hg, rearmLines]
+  · cases post with
+    | nil => rfl
+    | cons x xs => simp [specTrace]
+
+/-- **rearm_on_one_minute is false of the unchanged code** (F-C15, `fixed := false`): a joined
+two-command line whose FIRST half is answered with a `SHUTDOWN in 0:01:00` banner inside the
+echo: no `do reload in 2` is ever sent, although the run succeeds. -/
+theorem rearm_unfixed_counterexample :
+    ∃ g : Chg, g.Clean ∧ g.NoProbeFirst ∧ g.need = true ∧
+      (applyCommands (simDevice []) false [g.cmd] { dev := { queue := g.behavs } }).1 = .ok () ∧
+      doReloadCmd ∉ linesOf (applyCommands (simDevice []) false [g.cmd] { dev := { queue := g.behavs } }).2.trace ∧
+      -- the repaired code re-arms exactly once on the same input
+      rearms (linesOf (applyCommands (simDevice []) true [g.cmd] { dev := { queue := g.behavs } }).2.trace) = 1 :=
+  ⟨.two (lit "no ip route 10.2.0.0 255.255.0.0 10.8.2.1") (lit "ip route 10.2.0.0 255.255.0.0 10.9.2.2")
+      { form := .inside 5, msg := lit " --- SHUTDOWN in 0:01:00 ---" } {},
+   Chg.clean_of_B _ (by decide +kernel), Chg.noProbe_of_B _ (by decide +kernel),
+   by decide +kernel, by decide +kernel, by decide +kernel, by decide +kernel⟩
+
+/-- **banner_invariant is false without `NoProbeFirst`** (F-C15b): a `SHUTDOWN in 0:02:00` banner
+with a fresh prompt before the echo of the FIRST half of a joined line: `WaitShort("[#] ?$")`
+consumes the answers to both halves, `check` of the second half waits for a prompt that is gone
+and the run aborts with a time-out, although the banner-free run succeeds. Likewise for the banner
+after the output without a fresh prompt (`TryPrompt` consumes the second answer). -/
+theorem banner_invariant_counterexample :
+    ∃ g : Chg, g.Clean ∧ ¬ g.NoProbeFirst ∧
+      (applyCommands (simDevice []) true [g.cmd] { dev := { queue := g.behavs } }).1 =
+        .abort (.timeout promptName) ∧
+      (applyCommands (simDevice []) true [g.plain.cmd] { dev := { queue := g.plain.behavs } }).1 = .ok () ∧
+    ∃ g' : Chg, g'.Clean ∧ ¬ g'.NoProbeFirst ∧
+      (applyCommands (simDevice []) true [g'.cmd] { dev := { queue := g'.behavs } }).1 =
+        .abort (.timeout promptName) :=
+  ⟨.two (lit "no ip route 10.2.0.0 255.255.0.0 10.8.2.1") (lit "ip route 10.2.0.0 255.255.0.0 10.9.2.2")
+      { form := .before 2, msg := lit " --- SHUTDOWN in 0:02:00 ---" } {},
+   Chg.clean_of_B _ (by decide +kernel), (by unfold Chg.NoProbeFirst; decide +kernel),
+   by decide +kernel, by decide +kernel,
+   .two (lit "no ip route 10.2.0.0 255.255.0.0 10.8.2.1") (lit "ip route 10.2.0.0 255.255.0.0 10.9.2.2")
+      { form := .after, msg := lit " --- SHUTDOWN in 0:02:00 ---" } {},
+   Chg.clean_of_B _ (by decide +kernel), (by unfold Chg.NoProbeFirst; decide +kernel), by decide +kernel⟩
+
 /-- the hypotheses are satisfiable: a script with a joined line, the scripted device -/
 example : CleanCs [lit "ip route 10.1.0.0 255.255.0.0 10.9.1.1",
     lit "no ip route 10.2.0.0 255.255.0.0 10.8.2.1\nip route 10.2.0.0 255.255.0.0 10.9.2.2"] := by
@@ -336,8 +458,23 @@ example : writeCmd ∈ linesOf (applyCommands (simDevice []) true
 example : (applyCommands (simDevice []) true
     [lit "ip route 10.1.0.0 255.255.0.0 10.9.1.1"] { dev := {} }).1 = .ok () := by decide +kernel
 
+/-- the hypotheses of the banner theorems are satisfiable: the state in which `ApplyCommands` enters
+its change loop against the scripted device is `Ready`, for a clean script with banners -/
+example :
+    let g1 := Chg.one (lit "ip route 10.1.0.0 255.255.0.0 10.9.1.1")
+      { form := .before 2, msg := lit " --- SHUTDOWN in 0:01:00 ---", out := lit "INFO: x\n" }
+    let g2 := Chg.two (lit "no ip route 10.2.0.0 255.255.0.0 10.8.2.1") (lit "ip route 10.2.0.0 255.255.0.0 10.9.2.2")
+      { form := .afterPrompt 2, msg := lit " --- SHUTDOWN in 0:02:00 ---" } { form := .after, msg := lit "x" }
+    let D := simDevice []
+    let st := (sendCmd D confCmd (scheduleReload D (afterPrep D { dev := { queue := g1.behavs ++ g2.behavs } })).2).2
+    (st.pend = [] ∧ st.reloadActive = true ∧ st.dev.parts = [] ∧ st.dev.queue = g1.behavs ++ g2.behavs) ∧
+    g1.cleanB = true ∧ g2.cleanB = true ∧ g2.noProbeFirstB = true ∧ specOk [g1, g2] = true := by
+  decide +kernel
+
 def obligations : List Lean.Name :=
   [``guard_brackets_changes, ``write_only_if_all_accepted, ``no_reload_pending_after_success,
-   ``cancel_on_failure_partial, ``cancel_gap_counterexample]
+   ``cancel_on_failure_partial, ``cancel_gap_counterexample,
+   ``banner_invariant_partial, ``banner_invariant_counterexample,
+   ``rearm_on_one_minute, ``rearm_unfixed_counterexample]
 
 end NA.Ios
